@@ -1,32 +1,40 @@
-"""Online monotonicity monitor: per key a sorted map x -> y; every insertion is compared with
+"""Online monotonicity monitor: per key a sorted map x -> (lowest y, highest y) seen; every insertion is compared with
 its predecessor and successor only (adjacent comparison suffices for a total order), so any
 observed pair that breaks monotonicity is found whatever order the workload used."""
 from sortedcontainers import SortedDict
 
 
 class Mono(object):
-    def __init__(self, on_break, tol=0.0):
+    def __init__(self, on_break, tol=0.0, repeats='ignore'):
+        # repeats: what to do with an x seen again with another y - 'ignore' it (several legitimate series share the axis, as
+        # the track and road rows of one WMA table do) or 'compare' it with the neighbours too (one series, several spellings)
+        self.repeats = repeats
         self.maps = {}
         self.on_break = on_break      # (key, (x_lo, y_lo), (x_hi, y_hi))
         self.tol = tol
         self.pairs = 0
 
     def add(self, key, x, y):
-        """y must be non-decreasing in x for a fixed key."""
+        """y must be non-decreasing in x for a fixed key.  A mark seen again with another y (another spelling of the event,
+        another input form) is compared with its neighbours as well: per x the map keeps (lowest y, highest y)."""
         m = self.maps.get(key)
         if m is None:
             m = self.maps[key] = SortedDict()
         if x in m:
-            return
-        i = m.bisect_left(x)
+            lo, hi = m[x]
+            if lo <= y <= hi or self.repeats == 'ignore':
+                return
+            m[x] = (min(lo, y), max(hi, y))
+        else:
+            m[x] = (y, y)
+        i = m.index(x)
         if i > 0:
-            px, py = m.peekitem(i - 1)
+            px, (plo, phi) = m.peekitem(i - 1)
             self.pairs += 1
-            if py > y + self.tol:
-                self.on_break(key, (px, py), (x, y))
-        if i < len(m):
-            nx, ny = m.peekitem(i)
+            if phi > y + self.tol:
+                self.on_break(key, (px, phi), (x, y))
+        if i + 1 < len(m):
+            nx, (nlo, nhi) = m.peekitem(i + 1)
             self.pairs += 1
-            if y > ny + self.tol:
-                self.on_break(key, (x, y), (nx, ny))
-        m[x] = y
+            if y > nlo + self.tol:
+                self.on_break(key, (x, y), (nx, nlo))
